@@ -28,6 +28,7 @@
 #![allow(clippy::too_many_arguments)]
 #![allow(clippy::assign_op_pattern)]
 #![allow(clippy::match_like_matches_macro)]
+#![cfg_attr(feature = "verif", allow(private_interfaces))]
 
 use crate::{
     addresses::PublicAddresses,
